@@ -21,4 +21,5 @@ INVARIANT TerminalSane
 INVARIANT DistinctZ
 INVARIANT AllocatorSound
 INVARIANT NoOrphanZ
+INVARIANT TracksLastCanvas
 CHECK_DEADLOCK FALSE
